@@ -105,7 +105,12 @@ func (n *BitcoinNode) handleVersion(ctx context.Context, header *wire.MessageHea
 	// 	return errors.Wrapf(ErrNotFullService, "0x%016x", uint64(msg.Services))
 	// }
 
-	n.handshakeChannel <- msg // trigger handshake action
+	// Trigger handshake action. Nothing reads the channel after the handshake has completed so don't
+	// wait on a full channel.
+	select {
+	case n.handshakeChannel <- msg:
+	default:
+	}
 	return nil
 }
 
@@ -117,7 +122,12 @@ func (n *BitcoinNode) handleVerack(ctx context.Context, header *wire.MessageHead
 		return errors.Wrap(err, "read message")
 	}
 
-	n.handshakeChannel <- msg // trigger handshake action
+	// Trigger handshake action. Nothing reads the channel after the handshake has completed so don't
+	// wait on a full channel.
+	select {
+	case n.handshakeChannel <- msg:
+	default:
+	}
 	return nil
 }
 
